@@ -879,49 +879,59 @@ def method_grid_pool(ctx, MT, census_out=None):
 
 # --------------------------------------------------------------------------------------------- interpolation / twist exp over a vector
 def interp_grid(ctx, MT):
-    """X.interp(s) for X holding m values and s holding k values (m, k in 1..5)"""
+    """X.interp(s) for X holding m values and s holding k values (m, k in 1..5): interior coefficients; the end points s = 0 and s = 1 (which the
+    single-valued code answers by short-cuts: they must not bypass the per-value dispatch); and with the other end given (start= / dest=)"""
     rng = ctx.rng
-    S = np.array([0.15, 0.3, 0.45, 0.6, 0.8, 0.9])
+    S_INT = np.array([0.15, 0.3, 0.45, 0.6, 0.8, 0.9])
+    S_END = np.array([1.0, 0.0, 0.5, 1.0, 0.0, 0.25])
     for cn in POSES + ('UnitQuaternion',):
         A = [elem(cn, rng) for _ in range(NMAX)]
         As = singles(mk(cn, A))
-        refs = [[call(lambda: As[i].interp(float(S[j]))) for j in range(NMAX)] for i in range(NMAX)]
-        if not all(r[0] == 'ok' and single_value(r[1]) is not None for row in refs for r in row):
-            bad = next(r[1] for row in refs for r in row if r[0] != 'ok')
-            ctx.stats.setdefault('out-of-scope', []).append(f"{cn}.interp(s): the single-valued call itself raises {exn_name(bad)} (C11)")
-            continue
-        table = [[single_value(r[1]) for r in row] for row in refs]
-        site = f"{definer(cn, 'interp')}.interp"
-        for m in LENS:
-            for k in LENS:
-                X = mk(cn, A[:m])
-                for form in ('scalar', 'array') if k == 1 else ('array',):
-                    sv = float(S[0]) if form == 'scalar' else S[:k].copy()
-                    res = call(lambda: X.interp(sv))
-                    ctx.case(('interp', cn, m, k, form))
-                    ctx.count('oracle:interp-cells')
-                    replay = {'class': cn, 'method': 'interp', 'm': m, 's': np.asarray(sv).tolist(), 'elements_hex': [hexl(a) for a in A[:m]]}
-                    if res[0] == 'ok':
-                        got = vals(res[1])
-                        want = blen(m, k)
-                        good = len(got) == want and all(same(got[q], table[pick(q, m)][pick(q, k)]) for q in range(want))
-                        obs = ('ok', [(pick(q, m), pick(q, k)) for q in range(want)]) if good else ('bad', describe(res[1]))
-                    else:
-                        obs = ('err', exn_name(res[1]))
-                    cell = '1x1' if (m, k) == (1, 1) else '1xK' if m == 1 else 'Mx1' if k == 1 else 'MxK'
-                    ckey = cell + ('[vector-s-51bc88a]' if cell in ('1x1', '1xK') else '[multi-7443e8d]' if cell == 'Mx1' else '') if site == 'UnitQuaternion.interp' else cell
-                    if cell != 'MxK' and obs[0] != 'ok':
-                        # the property: one value x vector of s -> K results; M values x one s -> M results
-                        ctx.fail(f'oracle:interp:{site}:{ckey}:' + (f'err:{obs[1]}' if obs[0] == 'err' else 'wrong-result'), f"{cn}.interp on an object holding {m} values with s holding {k} "
-                                 f"value(s) ({form}) gives {obs} instead of {blen(m, k)} results equal to the single-valued interpolations",
-                                 dict(replay, observed=str(obs)))
-                    if site in ('SMPose.interp', 'UnitQuaternion.interp'):     # UnitQuaternion.interp has the same three cases since fix 7443e8d
-                        mod = parse_model(MT[('interp', m, k)])
-                        ctx.corr['cases'] += 1
-                        if mod != obs:
-                            ctx.corr['disagreements'] += 1
-                            ctx.fail('corr:' + site, f"{cn}.interp: {m} values, s of {k}: the hand model pose_interp gives {mod}, the implementation {obs}",
-                                     dict(replay, model=str(mod), observed=str(obs)))
+        other = singles(mk(cn, [elem(cn, rng)]))[0]
+        okw = {'dest': other} if cn == 'UnitQuaternion' else {'start': other}
+        for variant, S, kw in (('', S_INT, {}), (':end-points', S_END, {}), (':end-points-with-' + next(iter(okw)), S_END, okw),
+                               (':with-' + next(iter(okw)), S_INT, okw)):
+            refs = [[call(lambda: As[i].interp(float(S[j]), **kw)) for j in range(NMAX)] for i in range(NMAX)]
+            if not all(r[0] == 'ok' and single_value(r[1]) is not None for row in refs for r in row):
+                bad = next(r[1] for row in refs for r in row if r[0] != 'ok' or single_value(r[1]) is None)
+                ctx.stats.setdefault('out-of-scope', []).append(f"{cn}.interp(s{variant}): the single-valued call itself raises / is not single-valued: {exn_name(bad) if isinstance(bad, BaseException) else type(bad).__name__} (C11)")
+                continue
+            table = [[single_value(r[1]) for r in row] for row in refs]
+            site = f"{definer(cn, 'interp')}.interp"
+            for m in LENS:
+                for k in LENS:
+                    X = mk(cn, A[:m])
+                    forms = ('scalar', 'scalar2', 'array') if (k == 1 and variant.startswith(':end-points')) else ('scalar', 'array') if k == 1 else ('array',)
+                    for form in forms:
+                        # scalar2: the second entry of the grid as a plain float (with S_END: s = 0.0, after s = 1.0)
+                        sv = float(S[0]) if form == 'scalar' else float(S[1]) if form == 'scalar2' else S[:k].copy()
+                        col = (lambda q: 1) if form == 'scalar2' else (lambda q: pick(q, k))
+                        res = call(lambda: X.interp(sv, **kw))
+                        ctx.case(('interp', cn, m, k, form, variant))
+                        ctx.count('oracle:interp-cells')
+                        replay = {'class': cn, 'method': 'interp', 'm': m, 's': np.asarray(sv).tolist(), 'elements_hex': [hexl(a) for a in A[:m]],
+                                  'other_end': ({next(iter(kw)): hexl(np.asarray(other.A))} if kw else None)}
+                        if res[0] == 'ok':
+                            got = vals(res[1])
+                            want = blen(m, k)
+                            good = len(got) == want and all(same(got[q], table[pick(q, m)][col(q)]) for q in range(want))
+                            obs = ('ok', [(pick(q, m), pick(q, k)) for q in range(want)]) if good else ('bad', describe(res[1]))
+                        else:
+                            obs = ('err', exn_name(res[1]))
+                        cell = '1x1' if (m, k) == (1, 1) else '1xK' if m == 1 else 'Mx1' if k == 1 else 'MxK'
+                        ckey = cell + ('[vector-s-51bc88a]' if cell in ('1x1', '1xK') else '[multi-7443e8d]' if cell == 'Mx1' else '') if site == 'UnitQuaternion.interp' else cell
+                        if cell != 'MxK' and obs[0] != 'ok':
+                            # the property: one value x vector of s -> K results; M values x one s -> M results
+                            ctx.fail(f'oracle:interp{variant}:{site}:{ckey}:' + (f'err:{obs[1]}' if obs[0] == 'err' else 'wrong-result'), f"{cn}.interp on an object holding {m} values with s holding {k} "
+                                     f"value(s) ({form}{variant}) gives {obs} instead of {blen(m, k)} results equal to the single-valued interpolations",
+                                     dict(replay, observed=str(obs)))
+                        if site in ('SMPose.interp', 'UnitQuaternion.interp'):     # UnitQuaternion.interp has the same three cases since fix 7443e8d
+                            mod = parse_model(MT[('interp', m, k)])
+                            ctx.corr['cases'] += 1
+                            if mod != obs:
+                                ctx.corr['disagreements'] += 1
+                                ctx.fail('corr:' + site + variant, f"{cn}.interp ({form}{variant}): {m} values, s of {k}: the hand model pose_interp gives {mod}, the implementation {obs}",
+                                         dict(replay, model=str(mod), observed=str(obs)))
 
 
 def twist_exp_grid(ctx, MT):
